@@ -15,3 +15,6 @@ package output
 //@ func AllowOverwrite trusted
 //@   assigns nothing
 //@   ensures result == allowOverwrite(ctx)
+//@ func AllowRecoverableError trusted
+//@   assigns nothing
+//@   ensures result == allowRecoverable(ctx)
